@@ -574,6 +574,9 @@ spifopt_parse(int argc, char *argv[])
                 val_ptr = NULL;
             } else if (SPIFOPT_OPT_IS_ABSTRACT(j) && is_valid_option(val_ptr)) {
                 val_ptr = NULL;
+            } else if (!SPIFOPT_OPT_NEEDS_VALUE(j) && !SPIFOPT_OPT_IS_BOOLEAN(j) && !SPIFOPT_OPT_IS_ABSTRACT(j)) {
+                /* Counters, and anything else that takes no value, leave the next word alone. */
+                val_ptr = NULL;
             }
         }
         if (val_ptr) {
